@@ -607,6 +607,11 @@ def rule_sqrt_domain(repo, rep):
     rep.unknown(R, '_util.components_from_metric', '', 'function vanished')
     return
   rep.analysed(f)
+  # private helpers the conversion was split into count as its own lines
+  try:
+    f = astutil.inline_helpers(repo, f) or f
+  except Exception:
+    pass
   body = f.node.body
   pm = astutil.parents(f.node)
 
